@@ -161,6 +161,11 @@ def check_eq(case, ctx):
             operations.insert_knot(pcs[0], [lo_ + 0.625 * (hi_ - lo_)], [1])
             pcs[0].degree = pcs[0].degree
             ctx.label("decomposed-piece-edited")
+        if d["kind"] == "surface" and not d.get("unclamped"):
+            from geomdl import operations
+            pcs = operations.decompose_surface(a, decompose_dir=["u", "v", "uv"][case["idx"] % 3])
+            pcs[0].ctrlpts = [[c + 1.0 for c in q] for q in pcs[0].ctrlpts]          # (also when the surface was a single patch in that direction)
+            ctx.label("decomposed-piece-edited")
         k2 = (case["idx"] // 3) % len(sfx_)
         try:
             setattr(a, "knotvector" + sfx_[k2], [0.0] * len(d["kv"][k2]))          # no non-empty span: cannot be normalised
